@@ -14,7 +14,7 @@ def read_bytes(path):
         return f.read()
 
 
-def failed_dump(sym, fmt, position, attr, rule, maxlen, k, preexisting, any_value=False):
+def failed_dump(sym, fmt, position, attr, rule, maxlen, k, preexisting, any_value=False, linked=False):
     """a valid object was written to `path`; then one field (anywhere) becomes invalid and dump(path) is called again.
     any_value: the field gets an arbitrary value, inside or outside its documented domain - whatever the reason a dump is
     refused for (also a writer that is stricter than the documented rule), the destination must be left alone"""
@@ -23,6 +23,8 @@ def failed_dump(sym, fmt, position, attr, rule, maxlen, k, preexisting, any_valu
     path = os.path.join(d, "metadata.out")
     if preexisting:
         top.dump(path)
+        if linked:
+            os.link(path, path + ".hardlink")          # compose tooling hardlinks metadata into other trees
     before = read_bytes(path)
     kind = sym.choice("kind", KINDS)
     v = make_value(sym, kind, "v", maxlen)
@@ -45,6 +47,8 @@ def failed_dump(sym, fmt, position, attr, rule, maxlen, k, preexisting, any_valu
     if preexisting:
         sym.check("previous-file-intact", after == before)
         sym.check("previous-file-not-empty", after is not None and len(after) > 0)
+        if linked:
+            sym.check("hardlinked-copy-intact", read_bytes(path + ".hardlink") == before)
     else:
         sym.check("no-file-created", after is None)
 
@@ -58,7 +62,7 @@ def jobs(tier, seed):
         for i, (attr, rule, maxlen) in enumerate(fields):
             for pre in ((True, False) if big or (i + seed) % 3 == 0 else (True,)):
                 out.append({"harness": "failed_dump", "params": {"fmt": fmt, "position": position, "attr": attr, "rule": rule, "maxlen": maxlen, "k": k,
-                                                                "preexisting": pre}})
+                                                                "preexisting": pre, "linked": bool(pre and (big or (i + len(position) + seed) % 3 == 1))}})
     def add_any(fmt, position, fields):
         for i, (attr, rule, maxlen) in enumerate(fields):
             if big or (i + seed) % 2 == 0 or fmt == "discinfo":
@@ -97,7 +101,8 @@ def jobs(tier, seed):
 META = {
     "expected_covers": {"failed_dump": ["corrupted", "dump-failed"]},
     "assumptions": [
-        "the destination is a real file in a scratch directory outside /repo and /verif; open/read/exists are the real system calls",
+        "the destination is a real file in a scratch directory outside /repo and /verif; open/read/exists are the real system calls; in a third of the jobs "
+        "the existing destination has a second hard link (as compose tooling creates them)",
         "fault positions: every documented field of every nested object of the base objects of C06 (compose, release, base product, variants at depth 1-2, "
         "layered-product release, images in two cells, discinfo), invalidated by a symbolic value of any kind outside its domain - "
         "i.e. each nested validator is made to fail, whether the top-level check or only a nested writer detects it",
